@@ -195,6 +195,42 @@ def run_tlc(
     return res
 
 
+def apalache_inductive(ctx: "Ctx", module: str, *, init: str = "Init", ind_init: str = "IndInit", inv: str = "IndInv",
+                       expect_step_failure: bool = False, label: Optional[str] = None, timeout: int = 900) -> None:
+    """Discharge an inductive invariant with Apalache: Init => Inv (length 0) and Inv /\\ Next => Inv' (length 1).
+    With expect_step_failure the induction step must fail (the modelled defect breaks the invariant)."""
+    out = Path(tempfile.mkdtemp(prefix="apa-", dir=ctx.scratch))
+    t0 = time.time()
+
+    def run(i, length):
+        cmd = ["apalache-mc", "check", f"--init={i}", f"--inv={inv}", f"--length={length}", f"--out-dir={out}", f"{module}.tla"]
+        e = dict(os.environ)
+        e.pop("JAVA_TOOL_OPTIONS", None)
+        try:
+            p = subprocess.run(cmd, cwd=str(SPEC), env=e, stdout=subprocess.PIPE, stderr=subprocess.STDOUT, timeout=timeout, text=True)
+        except subprocess.TimeoutExpired:
+            raise MachineryError(f"apalache timed out after {timeout}s on {module}")
+        if "EXITCODE: OK" in p.stdout:
+            return True
+        if "EXITCODE: ERROR (12)" in p.stdout:       # invariant violated
+            return False
+        raise MachineryError(f"apalache failed on {module}:\n" + p.stdout[-2500:])
+    base = run(init, 0)
+    step = run(ind_init, 1)
+    shutil.rmtree(out, ignore_errors=True)
+    name = label or module
+    ctx.stage_info[f"apalache:{name}"] = {"init_implies_inv": base, "inv_is_inductive": step, "wall_s": round(time.time() - t0, 1)}
+    ctx.checker_cmds.append(f"apalache-mc check --init={ind_init} --inv={inv} --length=1 spec/{module}.tla")
+    ctx.obligations = getattr(ctx, "obligations", 0) + 2
+    print(f"[{ctx.pid}] apalache {name}: Init=>Inv {base}, Inv/\\Next=>Inv' {step} ({time.time() - t0:.1f}s)", flush=True)
+    if not base:
+        raise MachineryError(f"{name}: the initial state does not satisfy the inductive invariant")
+    if expect_step_failure and step:
+        raise MachineryError(f"{name}: the induction step was expected to fail for the modelled defect but did not (vacuous invariant)")
+    if not expect_step_failure and not step:
+        raise MachineryError(f"{name}: the invariant is not inductive")
+
+
 def tlc_generate(ctx: "Ctx", module: str, defines: Dict[str, str], cfg: Optional[str] = None,
                  label: Optional[str] = None, timeout: int = 3600, workers: int = NCPU) -> List[Any]:
     """Mode E: let TLC enumerate a bounded value domain; return the JSON carried by `out` in every state."""
